@@ -443,12 +443,14 @@ def fullmatch(pattern, string, flags=0):
     return None if r is None else Match(rx, s, 0, r[0], r[1])
 
 
-def search(pattern, string, flags=0):
+def search(pattern, string, flags=0, start=0):
     if not _any_sym(string):
+        if start:
+            return _re.compile(_concrete_args(pattern, string)[0], flags).search(_concrete_args(pattern, string)[1], start)
         return _re.search(*_concrete_args(pattern, string), flags)
     rx = Rx.get(pattern, flags)
     s = _lift_subject(string)
-    for pos in range(len(s.cs) + 1):
+    for pos in range(start, len(s.cs) + 1):
         r = rx.match_at(s, pos)
         if r is not None:
             return Match(rx, s, pos, r[0], r[1])
@@ -488,8 +490,13 @@ class SymPattern:
     def fullmatch(self, string):
         return fullmatch(self.pattern, string, self._f)
 
-    def search(self, string):
-        return search(self.pattern, string, self._f)
+    def search(self, string, pos=0, endpos=None):
+        # Pattern.search(string, pos): the scan starts at pos; the subject (and what ^ / lookbehind see) stays whole
+        if endpos is not None:
+            raise Unsupported("Pattern.search with endpos")
+        if not isinstance(pos, int):
+            raise Unsupported("Pattern.search with a symbolic position")
+        return search(self.pattern, string, self._f, start=max(0, pos))
 
 
 def compile(pattern, flags=0):  # noqa: A001
